@@ -92,6 +92,8 @@ type c07Chain struct {
 	nonce   uint32
 	// first failure of the pool premise seen after a PoolTx (pack kind)
 	poolNote string
+	// base execution fee known by construction (the Policy value the harness set); 0 = ask the node
+	baseOverride int64
 }
 
 func c07NewChain(cfg c07Cfg) *c07Chain {
@@ -250,6 +252,9 @@ func (c *c07Chain) build(s c07TxSpec) (*transaction.Transaction, int64) {
 	size := io.GetVarSize(probe)
 	var calc int64
 	base := c.bc.GetBaseExecFee()
+	if c.baseOverride != 0 {
+		base = c.baseOverride
+	}
 	for _, a := range s.signers {
 		f, _ := fee.Calculate(base, a.signer.Script())
 		calc += f
